@@ -10,9 +10,6 @@ package main
 import (
 	"encoding/json"
 	"fmt"
-	"go/ast"
-	"go/parser"
-	"go/token"
 	"os"
 	"os/exec"
 	"path/filepath"
@@ -24,116 +21,6 @@ import (
 	"go.sia.tech/core/types"
 	"verif/harness/internal/hx"
 )
-
-var touching = map[string]bool{"isLocked": true, "lockUTXOs": true, "cleanLockedUTXOs": true, "selectUTXOs": true, "selectRedistributeUTXOs": true}
-
-func lintWallet(c *hx.Ctx) {
-	path := filepath.Join(c.Repo, "wallet", "wallet.go")
-	fset := token.NewFileSet()
-	file, err := parser.ParseFile(fset, path, nil, 0)
-	if err != nil {
-		c.Res.Notes = append(c.Res.Notes, "lint not applicable on this tree: wallet/wallet.go cannot be parsed: "+err.Error())
-		return
-	}
-	isMu := func(e ast.Expr, recv, method string) bool {
-		call, ok := e.(*ast.CallExpr)
-		if !ok {
-			return false
-		}
-		sel, ok := call.Fun.(*ast.SelectorExpr)
-		if !ok || sel.Sel.Name != method {
-			return false
-		}
-		mu, ok := sel.X.(*ast.SelectorExpr)
-		if !ok || mu.Sel.Name != "mu" {
-			return false
-		}
-		id, ok := mu.X.(*ast.Ident)
-		return ok && id.Name == recv
-	}
-	touches := func(n ast.Node, recv string) bool {
-		found := false
-		ast.Inspect(n, func(x ast.Node) bool {
-			sel, ok := x.(*ast.SelectorExpr)
-			if !ok {
-				return true
-			}
-			if id, ok := sel.X.(*ast.Ident); ok && id.Name == recv && (sel.Sel.Name == "locked" || touching[sel.Sel.Name]) {
-				found = true
-			}
-			return true
-		})
-		return found
-	}
-	for _, d := range file.Decls {
-		fd, ok := d.(*ast.FuncDecl)
-		if !ok || fd.Recv == nil || len(fd.Recv.List) != 1 || fd.Body == nil {
-			continue
-		}
-		star, ok := fd.Recv.List[0].Type.(*ast.StarExpr)
-		if !ok {
-			continue
-		}
-		if id, ok := star.X.(*ast.Ident); !ok || id.Name != "SingleAddressWallet" {
-			continue
-		}
-		if len(fd.Recv.List[0].Names) == 0 {
-			continue
-		}
-		recv := fd.Recv.List[0].Names[0].Name
-		if !touches(fd.Body, recv) {
-			continue
-		}
-		if !fd.Name.IsExported() {
-			// helpers run under the caller's lock and must not take it themselves
-			bad := false
-			ast.Inspect(fd.Body, func(x ast.Node) bool {
-				if e, ok := x.(ast.Expr); ok && isMu(e, recv, "Lock") {
-					bad = true
-				}
-				return true
-			})
-			if bad {
-				c.Res.BreakTie("lint-helper-locks", fmt.Sprintf("unexported %s takes sw.mu itself", fd.Name.Name))
-			}
-			c.Res.Count("lint:helpers-checked")
-			continue
-		}
-		c.Res.Count("lint:exported-methods-checked")
-		locked := -1
-		for i, st := range fd.Body.List {
-			if es, ok := st.(*ast.ExprStmt); ok && isMu(es.X, recv, "Lock") && i+1 < len(fd.Body.List) {
-				if ds, ok := fd.Body.List[i+1].(*ast.DeferStmt); ok && isMu(ds.Call, recv, "Unlock") {
-					locked = i
-					break
-				}
-			}
-		}
-		why := ""
-		if locked < 0 {
-			why = "does not take sw.mu.Lock() with a deferred Unlock at the top level of its body"
-		} else {
-			for _, st := range fd.Body.List[:locked] {
-				if touches(st, recv) {
-					why = "touches the reservation state before taking sw.mu"
-				}
-			}
-			unlocks := 0
-			ast.Inspect(fd.Body, func(x ast.Node) bool {
-				if e, ok := x.(ast.Expr); ok && isMu(e, recv, "Unlock") {
-					unlocks++
-				}
-				return true
-			})
-			if unlocks != 1 {
-				why = "releases sw.mu in the middle of the call"
-			}
-		}
-		if why != "" {
-			c.Res.BreakTie("lint-unlocked-access", fmt.Sprintf("SingleAddressWallet.%s %s (%s)", fd.Name.Name, why, fset.Position(fd.Pos())))
-		}
-	}
-}
 
 type held struct {
 	ids      []types.SiacoinOutputID
@@ -152,12 +39,30 @@ func soak(c *hx.Ctx) {
 	if c.Thorough {
 		raceSoak(c)
 	}
-	sub := filepath.Join(c.Res.Dir(), "soak")
 	tier := "quick"
 	if c.Thorough {
 		tier = "thorough"
 	}
-	run := exec.Command(os.Args[0], "-seed", fmt.Sprint(c.Seed), "-tier", tier, "-out", sub)
+	if len(c.Res.TieBroken) == 0 {
+		soakRound(c, tier, c.Seed, "soak")
+		return
+	}
+	// the source-level locking discipline could not be re-established: search for a
+	// concrete interleaving with the large soak, several rounds, before the tie is reported
+	os.Setenv("C07_SOAK_DEEP", "1")
+	defer os.Unsetenv("C07_SOAK_DEEP")
+	for round := 0; round < 2; round++ {
+		c.Res.Count("soak:deep-rounds-after-broken-tie")
+		if soakRound(c, "quick", c.Seed+uint64(round)*7919, fmt.Sprintf("soak-deep-%d", round)) {
+			return
+		}
+	}
+}
+
+// soakRound runs one soak in a child process; it reports whether it found a failure.
+func soakRound(c *hx.Ctx, tier string, seed uint64, name string) bool {
+	sub := filepath.Join(c.Res.Dir(), name)
+	run := exec.Command(os.Args[0], "-seed", fmt.Sprint(seed), "-tier", tier, "-out", sub)
 	run.Env = append(os.Environ(), "C07_SOAK_ONLY=1")
 	out, err := run.CombinedOutput()
 	var child struct {
@@ -180,11 +85,11 @@ func soak(c *hx.Ctx) {
 		if len(s) > 1500 {
 			s = s[:1500]
 		}
-		c.Res.Fail("concurrent-calls-crash", fmt.Sprintf("the process running concurrent Fund*/Redistribute/SplitUTXO/ReleaseInputs calls died (%v): %s", err, s), map[string]any{"soak": true, "seed": c.Seed})
-		return
+		c.Res.Fail("concurrent-calls-crash", fmt.Sprintf("the process running concurrent Fund*/Redistribute/SplitUTXO/ReleaseInputs calls died (%v): %s", err, s), map[string]any{"soak": true, "seed": seed, "tier": tier})
+		return true
 	}
 	for _, f := range child.Failures {
-		c.Res.Fail(f.Kind, f.Detail, map[string]any{"soak": true, "seed": c.Seed, "child_replay": f.Replay})
+		c.Res.Fail(f.Kind, f.Detail, map[string]any{"soak": true, "seed": seed, "tier": tier, "child_replay": f.Replay})
 	}
 	for k, v := range child.Distribution {
 		if strings.HasPrefix(k, "soak:") {
@@ -192,10 +97,14 @@ func soak(c *hx.Ctx) {
 		}
 	}
 	c.Res.Notes = append(c.Res.Notes, child.Notes...)
+	return len(child.Failures) > 0
 }
 
 func soakHere(c *hx.Ctx) {
 	G, per := c.Scale(8, 32), c.Scale(120, 1500)
+	if os.Getenv("C07_SOAK_DEEP") != "" {
+		G, per = 32, 500
+	}
 	r := c.R.Fork()
 	spec := caseSpec{Name: "soak", Cfg: cfgSpec{Thresh: 3, MaxIn: 10, MaxDefrag: 3}}
 	used := map[int]bool{}
@@ -261,6 +170,13 @@ func soakHere(c *hx.Ctx) {
 						e.w.ReleaseInputs([]types.Transaction{*m.v1}, nil)
 					} else {
 						e.w.ReleaseInputs(nil, []types.V2Transaction{*m.v2})
+					}
+				case x < 36:
+					// the reporting calls run concurrently with everything else
+					if gr.Bool() {
+						e.w.Balance()
+					} else {
+						e.w.SpendableOutputs()
 					}
 				case x < 60:
 					amt := parseCur(fmt.Sprint(1+gr.Intn(3000)) + unit)
